@@ -331,6 +331,9 @@ def check(ctx):
                + "; ".join(f"{k}: {list(b)} -> {a}" for k, b, a in changed_[:2]) + " - a mode name is sent as its position in this list: the spa is told another mode than the one asked for, and the echo reads back as the one asked for",
                repo.method(fcls_, "all_automation_devices").loc, sample={"rule": "R13", "facade": fcls_, "platform": plat_, "items_watched": nw_} if plat_.startswith("inyt") else None)
     ctx.floor("R13", "facades built with every device wired", n13_, 10)
+    ctx.rule("R14", "the target temperature sent is the one asked for, to the tenth: for every 16-bit word, both units and both writers, writing the value the item presents for that word hands the same word to the device write - decided on the writers' own float programs (same operations, order and constants), so an algebraically equal rewrite that truncates differently (`int((t - 32.0) * 10.0)` gives 485 for 80.6 F) is seen (C14.R6 borrowed)")
+    from .c14 import exact_read_back as _erb13
+    _erb13(ctx.borrowed("R14", "C14"), repo, "R6")
     ctx.rule("R10", "read-back after the echo: what the facade's sensors present is what the items decode from the block as it is now, also after a unit change that leaves the temperature word untouched (C14.R9 borrowed)")
     from .c14 import presented_value_follows_the_block
     presented_value_follows_the_block(ctx.borrowed("R10", "C14"), repo, "R9")
